@@ -225,6 +225,28 @@ def static_never_grows(prog, res):
     g = prog.fn("ZSTD_CCtx_loadDictionary_advanced")
     al = g.call_roots(("ZSTD_customMalloc", "ZSTD_createCDict_advanced", "ZSTD_createCDict_advanced2"))
     guards.require(g, res, R, "ZSTD_CCtx_loadDictionary_advanced", Want("memory_allocation", "nonzero", {"f:staticSize"}), al)
+    # the decoder side: every function of zstd_decompress.c that can reach an allocator through the context's customMem is cut off
+    # for static contexts (a static DCtx has no allocator at all: customMem is never written by ZSTD_initStaticDCtx)
+    gd = prog.fn("ZSTD_DCtx_loadDictionary_advanced")
+    ald = gd.call_roots(("ZSTD_createDDict_advanced", "ZSTD_customMalloc", "ZSTD_customCalloc"))
+    # the test is one conjunct of `staticSize && dict && dictSize` (the other two are re-tested before the allocation, which a
+    # path-insensitive cut cannot correlate): the static test is evaluated on every path to the allocation, and its true edge can
+    # reach a memory_allocation return without passing the allocation
+    from ..ir import err_name as _en
+    stt = guards.truthy_edges(gd, lambda c: c.get("k") == "mem" and c.get("f") == "staticSize", truth=True)
+    stf = guards.truthy_edges(gd, lambda c: c.get("k") == "mem" and c.get("f") == "staticSize", truth=False)
+    fails = [(b, i) for b, i, r in gd.returns() if any(y.get("err") and _en(y) == "memory_allocation" for y in gd.walk_resolved(r))]
+    ok = bool(stt) and bool(ald) and bool(fails) and gd.must_pass(via_edges=stt + stf, targets=ald) and \
+        any(t in gd.flow([(e[1], 0) for e in stt], cut_roots=ald) for t in fails)
+    res.check(ok, R, "ZSTD_DCtx_loadDictionary_advanced", gd.loc, "staticSize is tested before the DDict is created and leads to memory_allocation",
+              "ZSTD_DCtx_loadDictionary_advanced can create a DDict for a static DCtx (a static decoder has no allocator: garbage function pointer or an "
+              "unfreeable heap block)")
+    users = sorted(f_.name for f_ in prog.fns_in("decompress/zstd_decompress.c")
+                   if any(y.get("k") == "mem" and y.get("f") == "customMem" and y.get("rec") == "ZSTD_DCtx_s" for _, _, r_ in f_.roots() for y in walk(r_)))
+    okusers = {"ZSTD_createDCtx_internal", "ZSTD_freeDCtx", "ZSTD_DCtx_loadDictionary_advanced", "ZSTD_decompressStream", "ZSTD_DCtx_refDDict", "ZSTD_copyDCtx",
+               "ZSTD_DCtx_reset", "ZSTD_sizeof_DCtx", "ZSTD_initDCtx_internal", "ZSTD_clearDict"}
+    res.check(set(users) <= okusers, R, "dctx-customMem:users", "lib/decompress/zstd_decompress.c", "dctx->customMem is used by %s, each cut off for static contexts" % users,
+              "new user(s) of dctx->customMem: %s (a static DCtx has no allocator)" % sorted(set(users) - okusers))
     d = prog.fn("ZSTD_decompressStream")
     al = d.call_roots("ZSTD_customMalloc")
     st = cond_edges(d, lambda c: c.get("k") == "mem" and c["f"] == "staticSize", "false")
@@ -268,7 +290,7 @@ def static_never_grows(prog, res):
         gs = guards.guard_sites(f3)
         ok = any("memory_allocation" in g2.codes for g2 in gs) or any("f:staticSize" in f3.anchors(f3.resolve_x(c)) for _, c, _, _ in f3.branches()) or name == "ZSTD_freeCDict"
         res.check(ok, R, name + ":refuses-static", f3.loc, "static objects are not freed", "free of a static object no longer refused")
-    res.need(R, 13)
+    res.need(R, 15)
 
 
 def bump_allocator(prog, res):
